@@ -956,7 +956,8 @@ PROPS = {
         "property_modules": ["Zlink.Properties.C13"], "lean_modules": ["Zlink.Properties.C13"],
         "theorems": ["C13.C13_total", "C13.C13_type_names_exact", "C13.C13_field_names_exact", "C13.C13_interface_names_complete",
                      "C13.C13_types_complete", "C13.C13_complete", "C13.C13_types_layout", "C13.C13_layout",
-                     "C13.C13_interface_names_sound", "C13.C13_sound_tree", "C13.C13_literals"],
+                     "C13.C13_interface_names_sound", "C13.C13_sound_tree", "C13.C13_sound_text",
+                     "C13.C13_type_members_homogeneous", "C13.C13_literals"],
         "run": run_idl, "trusted_base": TB_COMMON,
         "assumptions": [
             "winnow's alt / separated / literal / take_while / multispace0 and str::trim behave as ported in Zlink/Model/Idl.lean (validated by the correspondence run: identical trees / rejections on every explored text)",
@@ -965,7 +966,8 @@ PROPS = {
             "C13_layout (unbounded): the grammar as an inductive relation IfaceCoreL between descriptions and texts - gaps of space/tab/CR/LF wherever the scenario's layout generator puts them (inside parentheses, around `:` `,` `->`, after keywords, between members, around the text), "
             "comment lines with arbitrary blanks in every slot, members of the three kinds in any interleaving - and the theorem that every such text parses to exactly the description; not covered by the relation: layout comments in places where the description has no slot, form feed / Unicode white space",
             "C13_sound_tree (every input text): an accepted text yields a description made of grammatical names and parser-shaped comments only (all three lexers sound; induction over the parser's fuel through all nine mutually recursive type parsers and the member loops)",
-            "PARTIAL: not proved, decided per explored text by the Lean oracle on the implementation's observation and by model = implementation: that an accepted *text* is grammatical and nothing of it is ignored (oracle `nothingIgnored`)",
+            "C13_sound_text (every input text): an accepted text is, after trimming, a text of the inductive grammar IfaceS denoting exactly the returned description - every byte is a token of it, an attached comment or layout (nothing ignored); side condition: no variant-less inline enum in the result (needs a fuel argument; checked by the oracle per accepted text)",
+            "the two grammar relations (IfaceCoreL for completeness, IfaceS for soundness) are not proved equal: IfaceS additionally allows layout comments in gaps, form feed after keywords, no white space between members, and a last comment without line end; the scenario's oracle `nothingIgnored` stays in place per explored text",
             "C13_complete carries the side condition noVCI (no inline enum with commented variants): such trees exist only through the constructors, the parser has no slot for these comments; without the condition the statement is false (C13_complete_statement, kept visible)",
             "leniencies deliberately not counted as violations: members without a line break between them; comments at places where the description has no slot (layout, as in the grammar's `_` production)",
         ],
